@@ -47,6 +47,7 @@ type alphabet struct {
 
 type poolCfg struct {
 	Name     string
+	Prop     string
 	Min, Max uint32
 	WM       uint32
 	Fallback bool
@@ -158,6 +159,7 @@ type call struct {
 	start    time.Time
 	rrEpoch  int
 	rrSeq    int
+	rrTurn   bool
 	keyBound *refSlot // binding of the key when the pick started (nil: unknown key)
 	reqList  bool
 }
@@ -532,6 +534,12 @@ func (w *poolWorld) Do(op string) {
 	if w.poisoned {
 		return
 	}
+	// Publications made during this operation: their reference READY snapshot is
+	// the reference pool after the operation's own effect (the balancer
+	// publishes after recording the reported state).
+	for _, p := range w.cc.pubs[pubsBefore:] {
+		p.ready = w.refReadySlots()
+	}
 	w.afterOp(name, pubsBefore)
 }
 
@@ -654,6 +662,12 @@ func (w *poolWorld) doState(id int, st connectivity.State, pubsBefore int) {
 	}
 	pend := w.pendingOf(sc)
 	aggBefore := w.aggregate()
+	anyReported := false
+	for _, x := range w.liveSlots() {
+		if x.cur.reported {
+			anyReported = true
+		}
+	}
 	readyBefore := slot != nil && slot.state == connectivity.Ready
 	th := w.runThread("state", func() {
 		w.b.UpdateSubConnState(sc, balancer.SubConnState{ConnectivityState: st})
@@ -734,7 +748,8 @@ func (w *poolWorld) doState(id int, st connectivity.State, pubsBefore int) {
 		}
 		// C04.R3
 		aggAfter := w.aggregate()
-		if readyBefore != readyAfter || (aggBefore == connectivity.TransientFailure) != (aggAfter == connectivity.TransientFailure) {
+		// (before any connection has reported anything the aggregate is not defined)
+		if readyBefore != readyAfter || (anyReported && (aggBefore == connectivity.TransientFailure) != (aggAfter == connectivity.TransientFailure)) {
 			w.nontriv["C04"] = true
 			if len(w.cc.pubs) == pubsBefore {
 				w.violate("C04", "C04.R3", "no publication on a READY-ness / TRANSIENT_FAILURE change", fmt.Sprintf("%v: %v->%v, aggregate %v->%v, nothing published", slot, readyBefore, readyAfter, aggBefore, aggAfter))
@@ -796,9 +811,12 @@ func (w *poolWorld) doPick(args []string) {
 	if c.hasG && !c.reqList && (cmd == "bound" || cmd == "unbind") && key != "" {
 		c.keyBound = w.bind[key]
 	}
-	if cmd == "bind" && w.cfg.RR {
+	if _, real := c.pub.picker.(*gcpPicker); cmd == "bind" && w.cfg.RR && real && len(c.pub.ready) > 0 {
+		// the call takes a round-robin turn (a picker without READY channels
+		// tells every call to wait before any assignment)
 		c.rrEpoch, c.rrSeq = w.rrEpoch, w.rrSeq
 		w.rrSeq++
+		c.rrTurn = true
 	}
 	info := balancer.PickInfo{FullMethodName: c.method, Ctx: ctx}
 	picker := c.pub.picker
@@ -946,10 +964,10 @@ func (w *poolWorld) judgeUnkeyed(c *call, desc string, creations int) {
 		}
 		// placed although growth was due? statement: the call that finds the pool
 		// saturated below max is told to wait.
-		if w.saturated(ready, c.slot) && len(w.liveSlots()) < w.cfg.effMax() && !w.anyConnecting() {
+		if w.saturated(ready, c.slot) && w.poolBefore() < w.cfg.effMax() && !w.anyConnectingBefore() {
 			w.violate("C03", "C03.R2", "saturated pool below max: call placed instead of growing", desc)
 		}
-		if w.saturated(ready, c.slot) && len(w.liveSlots()) >= w.cfg.effMax() {
+		if w.saturated(ready, c.slot) && w.poolBefore() >= w.cfg.effMax() {
 			w.nontriv["C03max"] = true
 		}
 	}
@@ -957,9 +975,9 @@ func (w *poolWorld) judgeUnkeyed(c *call, desc string, creations int) {
 		sat := w.saturated(ready, nil)
 		switch {
 		case len(ready) == 0:
-		case sat && len(w.liveSlots()) < w.cfg.effMax():
+		case sat && w.poolBefore() < w.cfg.effMax():
 			// growth path: a connection is created unless one is idle/connecting
-			if creations == 0 && !w.anyConnecting() {
+			if creations == 0 && !w.anyConnectingBefore() {
 				w.violate("C03", "C03.R2", "saturated pool below max did not grow", desc)
 			}
 			w.nontriv["C03grow"] = true
@@ -1003,6 +1021,23 @@ func (w *poolWorld) anyConnecting() bool {
 		}
 	}
 	return false
+}
+
+// poolBefore: number of pool channels before the current operation's creations.
+func (w *poolWorld) poolBefore() int {
+	created := map[*fakeSC]bool{}
+	for _, e := range w.cc.events {
+		if e.Kind == "NewSubConn" {
+			created[e.SC] = true
+		}
+	}
+	n := 0
+	for _, s := range w.liveSlots() {
+		if !created[s.cur] {
+			n++
+		}
+	}
+	return n
 }
 
 // anyConnectingBefore ignores connections created in the current operation.
@@ -1089,6 +1124,12 @@ func (w *poolWorld) satTag() string {
 func (w *poolWorld) judgeRR(c *call, desc string) {
 	w.nontriv["C09"] = true
 	ctxDone := c.ctx.Err() != nil
+	if !c.rrTurn {
+		if c.err != balancer.ErrNoSubConnAvailable {
+			w.violate("C09", "C09.Q2", "BIND on a picker without READY channels was not told to wait", fmt.Sprintf("%s: %v", desc, c.err))
+		}
+		return
+	}
 	if c.err != nil {
 		w.violate("C09", "C09.Q2", "round-robin BIND returned an error", fmt.Sprintf("%s: %v", desc, c.err))
 		return
@@ -1361,7 +1402,32 @@ func (w *poolWorld) Take() []vsched.Violation {
 	w.viol = nil
 	return v
 }
-func (w *poolWorld) Nontrivial() bool { return len(w.nontriv) > 0 }
+
+// premiseTags: which monitor tags mean that the premise of a rule of the
+// property was exercised on the way to a state.
+var premiseTags = map[string][]string{
+	"C01": {"C01", "C01r3", "C01unbind"},
+	"C02": {"C02"},
+	"C03": {"C03grow", "C03max"},
+	"C04": {"C04", "C04tf"},
+	"C07": {"C07", "C07de", "C07fail"},
+	"C08": {"C08"},
+	"C09": {"C09", "C09park"},
+	"C20": {"C20", "C20swap"},
+}
+
+func (w *poolWorld) Nontrivial() bool {
+	tags, ok := premiseTags[w.cfg.Prop]
+	if !ok {
+		return len(w.nontriv) > 0 || w.opIndex > len(w.cfg.Setup)
+	}
+	for _, t := range tags {
+		if w.nontriv[t] {
+			return true
+		}
+	}
+	return false
+}
 
 func (w *poolWorld) Key() string {
 	// rank connections by creation order among those still referenced
@@ -1393,7 +1459,9 @@ func (w *poolWorld) Key() string {
 		InScope: func(t reflect.Type) bool {
 			return strings.HasSuffix(t.PkgPath(), "/grpcgcp") && t.Name() != "GCPBalancerConfig"
 		},
-		SkipField: func(typ, f string) bool { return f == "log" || (typ == "gcpBalancer" && (f == "rrRefId" || f == "cfg" || f == "methodCfg")) },
+		SkipField: func(typ, f string) bool {
+			return f == "log" || (typ == "gcpBalancer" && (f == "rrRefId" || f == "cfg" || f == "methodCfg"))
+		},
 		Foreign: func(v reflect.Value) (string, bool) {
 			switch v.Type() {
 			case fakeSCType:
@@ -1416,7 +1484,9 @@ func (w *poolWorld) Key() string {
 	fmt.Fprintf(&b, "|unk=%v|fail=%v|addrs=%s|res=%v", w.unknown.state, w.cc.failFactory, w.addrs, w.resolved)
 	b.WriteString("|calls=")
 	now := w.s.Clock()
-	rel := func(t time.Time) int64 { return int64(t.Sub(now).Round(100*time.Microsecond) / (100 * time.Microsecond)) }
+	rel := func(t time.Time) int64 {
+		return int64(t.Sub(now).Round(100*time.Microsecond) / (100 * time.Microsecond))
+	}
 	for _, c := range w.calls {
 		fmt.Fprintf(&b, "(%s,%s,%s,%v,g%d,%s", c.cmd, c.key, c.ctxs, c.returned, c.pub.gen-len(w.cc.pubs), scName(c.sc))
 		if c.returned {
